@@ -104,7 +104,7 @@ US_BINARY_EXTRA = ["0001-01-01T00:00:00"]   # outside the ns range: binary forma
 
 SPECIALS = {
     "quick": ["x,y", "x;y", "x\ty", "x|y", 'q"r', "l1\nl2", "l1\r\nl2", "日本", "é", " ", LONG,
-              "e\u0301", " a ", "\ufeffx", "x\u2028y", "\u00a0"],
+              "e\u0301", " a ", "\ufeffx", "x\u2028y", "\u00a0", "b\\s", "C:\\d\\"],
     "thorough": ["x,y", "x;y", "x\ty", "x|y", 'q"r', "l1\nl2", "l1\r\nl2", "日本", "é", " ", LONG,
                  '"', " a ", "'", "b\\s", "#c", "\U0001F600", ",", "\n",
                  "e\u0301", "\ufeffx", "x\u2028y", "\u00a0", "x\x85y", "\t", "A", "ａ"],
